@@ -19,9 +19,9 @@ pub fn prop() -> Prop {
         level: "fault_enumeration",
         rule: "complete enumeration of the product {scenario: 2 nodes single open / dual open, 3-node mesh} x {selected wire datagrams: every handshake datagram, first rotation \
                and node-info datagrams, data datagrams early/mid/late, later rotation datagrams} x {12 re-injection offsets 0..600 s} x {claimed source: original, \
-               another peer, unknown} x {verbatim, counter/key-id/field edits}; each case is a fresh real execution: run to the injection time, inject, then 400 s of \
+               another peer, unknown} x {verbatim, counter/key-id edits, 19 single-field edits of handshake datagrams (key hash, part lengths/tags/bodies, end marker, signature length and bytes)}, plus a 3-node mesh with reversed hash order; each case is a fresh real execution: run to the injection time, inject, then 400 s of \
                one packet per second in every direction. Oracle every second: all pairs connected, every probe packet delivered exactly once (one extra copy of the \
-               injected datagram's own payload is allowed). non-trivial = injected datagram is a verbatim or edited GENUINE datagram from a peer's address",
+               injected datagram's own payload is allowed), and no node opens a new handshake towards a mesh member after the injection. non-trivial = injected datagram is a verbatim or edited GENUINE datagram from a peer's address",
         run,
         replay,
     }
